@@ -121,17 +121,18 @@ class ImplSession:
 _native_cache = {}
 
 
-def native_tables():
+def native_tables(legacy=False):
     """(known native names, effectful native names, base symbol names) from the current tree"""
-    if "t" not in _native_cache:
+    key = "t_legacy" if legacy else "t"
+    if key not in _native_cache:
         from harness.extract import natives
         tab = natives.extract()
         known = sorted(tab["names"])
         eff = sorted(n for n, info in tab["natives"].items() if not info["secure"])
         from ckl.interpreter import Interpreter
-        base = sorted(Interpreter(False, False).base_environment.getSymbols())
-        _native_cache["t"] = (known, eff, base)
-    return _native_cache["t"]
+        base = sorted(Interpreter(False, legacy).base_environment.getSymbols())
+        _native_cache[key] = (known, eff, base)
+    return _native_cache[key]
 
 
 def ast_or_syn(src, name="f"):
@@ -144,8 +145,8 @@ def ast_or_syn(src, name="f"):
         return "(syn)"
 
 
-def model_request(progs, mods=None, secure=True, fuel=20000):
-    known, eff, base = native_tables()
+def model_request(progs, mods=None, secure=True, fuel=20000, legacy=False):
+    known, eff, base = native_tables(legacy)
     s_ = lambda xs: "".join(" s:" + proto.enc_str(x) for x in xs)   # noqa
     ms = []
     for fname, src in (mods or {}).items():
